@@ -33,7 +33,7 @@ def text32(b):
     return (bytes(b) + bytes(32))[:32]
 
 
-def realize(events, ts0=1000, step=7, table=None):
+def realize(events, ts0=1000, step=7, table=None, ts_list=None):
     """-> list of real Kevent objects (decoded from encoded records by the repository's own decoder);
     timestamps strictly increasing (assumption A1)"""
     from pykdebugparser.kevent import from_kd_buf
@@ -41,7 +41,8 @@ def realize(events, ts0=1000, step=7, table=None):
     out = []
     for i, (tid, code, q, data) in enumerate(events):
         ident = names[code] if isinstance(code, str) else code
-        out.append(from_kd_buf(kmodel.record(ts0 + step * i, bytes(data), tid, (ident & ~3) | q, cpu=i % 4)))
+        ts = ts_list[i] if ts_list is not None else ts0 + step * i
+        out.append(from_kd_buf(kmodel.record(ts, bytes(data), tid, (ident & ~3) | q, cpu=i % 4)))
     return out
 
 
